@@ -770,7 +770,25 @@ func c08Conservation(r *verdict.Run, e *emu, kind string, nconn, nops int, rng *
 			cn.Timeout = 30 * time.Second
 			for i := 0; !stop.Load(); i++ {
 				x := []string{"0", "255"}[(i+c)%2]
-				switch c % 4 {
+				switch c % 5 {
+				case 4:
+					// commands with very many keys / members: all of them, or none, for every observer
+					a := []string{"MSET"}
+					if i%2 == 1 {
+						a = []string{[]string{"UNLINK", "DEL"}[(i/2)%2]}
+					}
+					for j := 0; j < 200; j++ {
+						a = append(a, fmt.Sprintf("mk%03d", j))
+						if i%2 == 0 {
+							a = append(a, "v")
+						}
+					}
+					cn.Do(a...)
+					b := []string{[]string{"SADD", "SREM"}[i%2], "mset"}
+					for j := 0; j < 300; j++ {
+						b = append(b, fmt.Sprintf("m%03d", j))
+					}
+					cn.Do(b...)
 				case 0:
 					cn.Do("BITFIELD", "bits", "SET", "u8", "#"+strconv.Itoa(big/4), x, "SET", "u8", "#"+strconv.Itoa(3*big/4), x)
 				case 1:
@@ -800,7 +818,19 @@ func c08Conservation(r *verdict.Run, e *emu, kind string, nconn, nops int, rng *
 			cn.Timeout = 30 * time.Second
 			for i := 0; !stop.Load(); i++ {
 				atomic.AddInt64(&observations, 1)
-				switch (c + i) % 5 {
+				switch (c + i) % 7 {
+				case 5:
+					v, err := cn.Do("EXISTS", "mk000", "mk199", "mk064", "mk065")
+					if err == nil && v.Int != 0 && v.Int != 4 {
+						bad("bigviews/many-key-command-half-applied", fmt.Sprintf("EXISTS mk000 mk199 mk064 mk065 = %d while a writer alternates MSET and UNLINK/DEL of mk000..mk199 in single commands (must be 0 or 4)", v.Int), nil)
+						return
+					}
+				case 6:
+					v, err := cn.Do("SCARD", "mset")
+					if err == nil && v.Int != 0 && v.Int != 300 {
+						bad("bigviews/many-member-command-half-applied", fmt.Sprintf("SCARD = %d while a writer alternates SADD and SREM of the same 300 members in single commands (must be 0 or 300)", v.Int), nil)
+						return
+					}
 				case 0:
 					v, err := cn.Do("BITCOUNT", "bits")
 					if err == nil && v.Int != 0 && v.Int != 16 {
@@ -851,7 +881,7 @@ func c08Conservation(r *verdict.Run, e *emu, kind string, nconn, nops int, rng *
 				}
 			}
 		}
-		for c := 0; c < 4; c++ {
+		for c := 0; c < 5; c++ {
 			wg.Add(1)
 			go writer(c)
 		}
@@ -955,7 +985,7 @@ func c08Run(r *verdict.Run, race bool, nhist, ncons int, tag string) {
 
 func checkC08(r *verdict.Run) {
 	r.Rule = "(1) many small concurrent histories (3-6 connections x 5-10 operations on 1-3 disjoint key groups; single-key read-modify-write and multi-key commands; unique written values) recorded at the client boundary with one monotonic clock and checked for linearizability with porcupine against the reference model (partitioned by key group; a final single-client read of every key is part of the history); " +
-		"(2) conservation runs: N x M INCR/DECR/HINCRBY sums, APPEND tokens, unique list ids pushed/popped/moved (exactly once), SMOVE between two sets under SINTERCARD/SUNION observers, MSET tag vectors under MGET observers, MSETNX/DEL all-or-nothing, RENAME ping-pong under EXISTS observers, and atomic views of large values (two distant bytes of a 1 MiB string written by one BITFIELD, a 256 KiB value overwritten by one SETRANGE, 300 hash fields set by one HSET, a 1500-element list that is only rotated) under BITCOUNT/BITFIELD_RO/GET/HVALS/LRANGE observers; yields are injected before/after the data store lock. distinct = overlapping command pairs actually observed + conservation kinds"
+		"(2) conservation runs: N x M INCR/DECR/HINCRBY sums, APPEND tokens, unique list ids pushed/popped/moved (exactly once), SMOVE between two sets under SINTERCARD/SUNION observers, MSET tag vectors under MGET observers, MSETNX/DEL all-or-nothing, RENAME ping-pong under EXISTS observers, and atomic views of large values (two distant bytes of a 1 MiB string written by one BITFIELD, a 256 KiB value overwritten by one SETRANGE, 300 hash fields set by one HSET, a 1500-element list that is only rotated, 200 keys written by one MSET and removed by one UNLINK/DEL, 300 members added by one SADD and removed by one SREM) under BITCOUNT/BITFIELD_RO/GET/HVALS/LRANGE/EXISTS/SCARD observers; yields are injected before/after the data store lock. distinct = overlapping command pairs actually observed + conservation kinds"
 	c08Run(r, false, tierPick(r, 300, 10000), tierPick(r, 7, 63), "plain")
 	if r.Tier == "thorough" {
 		c08Run(r, true, 300, 12, "race-build")
